@@ -375,9 +375,40 @@ func init() {
 							}
 							return t
 						}
-						texts := map[string][]byte{"(abb)^k": mk("abb"), "(abbab)^k": mk("abbab"), "(ab)^k": mk("ab"), "a^n": mk("a"), "(aab)^k a-tail": append(mk("aab")[:n-1], 'a'),
+						texts := map[string][]byte{}
+						if n == 4099 {
+							// many B* substrings with a long common prefix in one bucket: (a^k b)^j and (a^k b a^l c)^j
+							for _, k := range []int{40, 41, 47, 64} {
+								for _, j := range []int{8, 9, 10, 16, 17} {
+									u := append(bytes.Repeat([]byte("a"), k), 'b')
+									texts[fmt.Sprintf("(a^%d b)^%d", k, j)] = bytes.Repeat(u, j)
+									w := append(append(append([]byte(nil), u...), bytes.Repeat([]byte("a"), k-1)...), 'c')
+									texts[fmt.Sprintf("(a^%d b a^%d c)^%d", k, k-1, j)] = bytes.Repeat(w, j)
+								}
+							}
+						}
+						if n == 4099 {
+							// runs of two letters with VARYING run lengths of at least 40: all B* substrings "ab a^k ab" of one
+							// bucket agree in their first 40 bytes, the depth limit of the substring introsort is used up
+							// before they differ (heap sort of sections of even and odd length)
+							for _, mod := range []int{30, 17, 5} {
+								for runs := 10; runs <= 120; runs++ {
+									var t []byte
+									x := uint32(runs) // linear congruential sequence seeded by the number of runs: a closed formula, not a sample
+									for i := 0; i < runs; i++ {
+										x = x*1664525 + 1013904223
+										t = append(t, bytes.Repeat([]byte("a"), 40+int(x>>16)%mod)...)
+										t = append(t, 'b')
+									}
+									texts[fmt.Sprintf("runs a^(40 + lcg mod %d) b, %03d runs", mod, runs)] = t
+								}
+							}
+						}
+						for k, v := range map[string][]byte{"(abb)^k": mk("abb"), "(abbab)^k": mk("abbab"), "(ab)^k": mk("ab"), "a^n": mk("a"), "(aab)^k a-tail": append(mk("aab")[:n-1], 'a'),
 							"thue-morse": ThueMorse(n, 'a', 'b'), "fibonacci": Fibonacci(n, 'a', 'b'), "period-doubling": PeriodDoubling(n, 'a', 'b'),
-							"fibonacci-bytes": Fibonacci(n, 0xff, 0x00), "thue-morse-bytes": ThueMorse(n, 0x80, 0x7f)}
+							"fibonacci-bytes": Fibonacci(n, 0xff, 0x00), "thue-morse-bytes": ThueMorse(n, 0x80, 0x7f)} {
+							texts[k] = v
+						}
 						names := make([]string, 0, len(texts))
 						for k := range texts {
 							names = append(names, k)
